@@ -141,5 +141,5 @@ def run(ctx):
     accepted_mutants(ctx)
     n_models = (400 if ctx.quick else 2000) * (3 if ctx.search else 1)
     for _ in range(n_models):
-        a, o, t = gen_valid(ctx.rng, ctx.quick)
+        a, o, t = gen_valid(ctx.rng, ctx.quick, empty_p=0.04)
         do_case(ctx, {"ast": a})
